@@ -116,5 +116,37 @@ for stage, (nmax, budget) in enumerate(((30, 120), (600, 240),
         except Budget:
             undecided.append('checkpoint stage {}'.format(stage))
 signal.alarm(0)
+
+
+# second configuration for the checkpoint comparison: batches much smaller
+# than the live set (transfer candidates are consumed over several batches),
+# ring-shaped likelihood (many bounds), blob = a coordinate
+def ring(x):
+    r = np.sqrt(np.sum((4.0 * x - 2.0)**2, axis=-1))
+    return -0.5 * ((r - 1.0) / 0.1)**2, x[..., 0]
+
+
+def run2(filepath):
+    s = Sampler(lambda u: u, ring, n_dim=2, n_live=400, n_networks=1,
+                n_batch=50, seed=7, filepath=filepath)
+    s.run(f_live=0.02, n_eff=600, verbose=False)
+    return result(s)
+
+
+if not bad:
+    try:
+        signal.alarm(600)
+        a = run2(None)
+        with tempfile.TemporaryDirectory() as d:
+            b = run2(os.path.join(d, 'c.h5'))
+        signal.alarm(0)
+        if not same(a, b):
+            which = [k for k in 'pwlb' if not np.array_equal(a[k], b[k])]
+            bad.append(dict(what='result depends on writing a checkpoint '
+                            '(ring likelihood, n_live=400, n_batch=50, seed 7)',
+                            differing=''.join(which)))
+    except Budget:
+        undecided.append('checkpoint, ring configuration')
+signal.alarm(0)
 print(json.dumps(dict(violations=bad, undecided=undecided)))
 sys.exit(1 if bad else 0)
